@@ -39,6 +39,12 @@ def failures(pid, inst, r):
                 # panics in the flow-network construction
                 bad.append(("cost-overflow-guard", "%s build: the i64 guard of the flow network fails (model: "
                                                    "cost_guard = Panic) and solve_instance panics %s" % (build, note)))
+            elif st == "PANIC" and "rs-graph" in note and "overflow" in note and \
+                    max(inst["parameters"]["costs"].get(k) or 0 for k in ("staff", "serviceTrip", "deadHeadTrip", "idle")) >= 10 ** 9:
+                # known finding F3: the code's own i64 guard passes, the external network simplex overflows internally
+                bad.append(("flow-solver-internal-overflow",
+                            "%s build: cost rates >= 10^9, the i64 guard of the flow network passes (model: %s) but "
+                            "rs_graph's network simplex panics %s" % (build, r.get("guard"), note)))
             else:
                 bad.append(("no-answer-%s-%s" % (build, st),
                             "%s build: solve_instance %s within %ds wall clock %s" % (build, st, LIMIT, note)))
